@@ -4,6 +4,7 @@ import (
 	"fmt"
 	"math/rand"
 	"sort"
+	"strconv"
 	"strings"
 
 	"github.com/rkosegi/yaml-toolkit/dom"
@@ -75,6 +76,8 @@ func (c pCond) yaml() (string, bool) {
 		return fmt.Sprintf(`{{ lt (.%s | int) %d }}`, c.K, c.N), true
 	case "bad":
 		return "maybe", true
+	case "text":
+		return c.S, true
 	}
 	return "", false
 }
@@ -181,6 +184,8 @@ func (c pCond) gallina() string {
 		return "(CLt " + gStr(c.K) + " " + gZ(int64(c.N)) + ")"
 	case "bad":
 		return "CBad"
+	case "text":
+		return "(CText " + gStr(c.S) + ")"
 	}
 	return "CNone"
 }
@@ -419,8 +424,14 @@ func genC12Act(r *rand.Rand, depth, maxDepth, maxFan int, name string, order int
 	switch r.Intn(8) {
 	case 0:
 		a.When = pCond{Kind: "const", B: false}
+		if r.Intn(2) == 0 { // every spelling strconv.ParseBool accepts, and near misses
+			a.When = pCond{Kind: "text", S: []string{"0", "f", "F", "FALSE", "False", " false ", "no", "tRUE", "off"}[r.Intn(9)]}
+		}
 	case 1:
 		a.When = pCond{Kind: "const", B: true}
+		if r.Intn(2) == 0 {
+			a.When = pCond{Kind: "text", S: []string{"1", "t", "T", "TRUE", "True", " true\n", "\t1 "}[r.Intn(7)]}
+		}
 	case 2:
 		a.When = pCond{Kind: "eq", K: "flag", S: "yes"}
 	case 3:
@@ -460,6 +471,11 @@ func treeStats(a *pAct) (siblings int, falseOrAbort bool) {
 	}
 	if (a.When.Kind == "const" && !a.When.B) || a.When.Kind == "bad" {
 		falseOrAbort = true
+	}
+	if a.When.Kind == "text" {
+		if b, err := strconv.ParseBool(strings.TrimSpace(a.When.S)); err != nil || !b {
+			falseOrAbort = true
+		}
 	}
 	for _, o := range a.Ops {
 		if o.Kind == "abort" {
